@@ -775,6 +775,9 @@ func (a *Analyzer) step(fr *frame, ins ssa.Instruction, st *State) []*State {
 			st.AssumeGE(cp.L.Sub(ln.L))
 		}
 		c := cp.L
+		if a.OnMake != nil {
+			a.OnMake(fr.fn, x, st, ln.L, cp.L)
+		}
 		st.Env[x] = &Slice{Base: &Base{ID: a.id(), Desc: "make@" + a.P.RelPos(x.Pos()), Fresh: true}, Off: Const(0), Len: ln.L, Cap: &c}
 		return one
 	case *ssa.MakeMap:
